@@ -481,10 +481,27 @@ def s_sheet(exprs):
             '<xsl:template match="/">F:<xsl:value-of select="generate-id(x:nodeset($r1))"/>,<xsl:value-of select="generate-id(x:nodeset($r2))"/>' + "".join(body) + '</xsl:template></xsl:stylesheet>')
 
 
+# directed triples: a list that starts with a node of another document, then a fragment root, then nodes (and the
+# root) of an EARLIER fragment of the same owner document - the linear scan has to order fragment roots by index
+S_DIRECTED = [("/", "x:nodeset($r2)", "x:nodeset($r1)//b/ancestor-or-self::node()"),
+              ("//t", "x:nodeset($r2)", "x:nodeset($r1)//*"),
+              ("//v/ancestor::*", "x:nodeset($r2) | x:nodeset($r2)/q", "x:nodeset($r1)/a"),
+              ("document('d1.xml')//y", "x:nodeset($r2)/p | x:nodeset($r2)", "x:nodeset($r1)"),
+              ("/", "x:nodeset($r1)/c", "x:nodeset($r2) | x:nodeset($r1)"),
+              ("x:nodeset($r2)", "/", "x:nodeset($r1)//b/ancestor-or-self::node()"),
+              ("x:nodeset($r2)", "x:nodeset($r1)", "x:nodeset($r1)//* | x:nodeset($r2)/*"),
+              ("//u/@k", "x:nodeset($r2)/q", "x:nodeset($r1) | x:nodeset($r2)")]
+
+
 def s_cases(r, n):
     out = []
     for k in range(n):
-        A, B, C = r.choice(S_POOL), r.choice(S_POOL), r.choice(S_POOL)
+        if k < 2 * len(S_DIRECTED):
+            A, B, C = S_DIRECTED[k // 2]
+            if k % 2:
+                A, B = B, A
+        else:
+            A, B, C = r.choice(S_POOL), r.choice(S_POOL), r.choice(S_POOL)
         exprs = [A, B, C, "%s | %s" % (A, B), "%s | %s" % (B, A), "(%s | %s) | %s" % (A, B, C), "%s | (%s | %s)" % (A, B, C), "%s | %s" % (A, A)]
         out.append({"id": "s%d" % k, "sheet": s_sheet(exprs), "source": S_SOURCE, "files": S_FILES, "exprs": exprs})
     return out
@@ -760,8 +777,24 @@ def replay(ctx, path):
     core.build_lib("plain")
     impl, ok_h, hlog = core.build_harness(FAMILY, "plain")
     lines = [l.rstrip("\n") for l in open(path) if l.strip() and not l.startswith("#")]
-    rc, res, raw = core.run_lines(impl, "\n".join(lines) + "\n", timeout=300)
+    rc, res, raw = core.run_lines(impl, "\n".join(lines) + "\n", timeout=300) if lines else (0, {}, "")
     bad = 0
+    # stylesheet cases are stored as comment lines "# stylesheet case (...); expressions: A ;; B ;; ..."
+    scases = []
+    for l in open(path):
+        if l.startswith("# stylesheet case") and "expressions: " in l:
+            exprs = l.rstrip("\n").split("expressions: ", 1)[1].split(" ;; ")
+            scases.append({"id": "s%d" % len(scases), "sheet": s_sheet(exprs), "source": S_SOURCE, "files": S_FILES, "exprs": exprs})
+    if scases:
+        from vlib import xsltrun
+        out = xsltrun.run(scases, timeout=300)
+        for c in scases:
+            o = out.get(c["id"])
+            msg = ("transformation failed: %r" % (o,)) if (not o or o[0] != "ok") else s_oracle(c, o[1].decode("utf-8", "replace"))[0]
+            print("%s: %s" % (c["id"], " ;; ".join(c["exprs"])[:200]))
+            if msg:
+                print("# FAILS: " + msg)
+                bad = 1
     for l in lines:
         f = l.split("|")
         if len(f) < 4:
